@@ -320,9 +320,11 @@ def note_sequence_to_pretty_midi(
                                seq_cc.control_number,
                                seq_cc.control_value, seq_cc.time))
 
+  first_instrument_used = False
   for (instr_id, prog_id, is_drum) in sorted(instrument_events.keys()):
-    # For instr_id 0 append to the instrument created above.
-    if instr_id > 0:
+    # The first (program, is_drum) group of instr_id 0 uses the instrument
+    # created above; every other group gets an instrument of its own.
+    if instr_id > 0 or first_instrument_used:
       if is_drum:
         name = 'Drums'
       else:
@@ -331,6 +333,7 @@ def note_sequence_to_pretty_midi(
       pm.instruments.append(instrument)
     else:
       instrument.is_drum = is_drum
+      first_instrument_used = True
     # propagate instrument name to the midi file
     instrument.program = prog_id
     if instr_id in inst_infos:
